@@ -1,7 +1,7 @@
 (* Property C12 — StatusList2021 behaves as an independent-bit vector with one-way revocation.
    Pinned statements only; every proof is `exact <lemma>`. *)
 From Coq Require Import List NArith Bool.
-From IdV Require Import Lib.Outcome Cred.StatusList Proofs.StatusListProofs.
+From IdV Require Import Lib.Base64 Cred.Bitmap Lib.Outcome Cred.StatusList Proofs.StatusListProofs.
 Import ListNotations.
 Open Scope N_scope.
 
@@ -37,11 +37,13 @@ Theorem C12_new_spec : forall n,
   | Panic => False
   end.
 Proof. exact sl_new_spec. Qed.
-(* Encoded form decodes to the identical list, for every codec with a left inverse
-   (gzip + Base64 are an oracle; the real codec is exercised by the correspondence run). *)
-Theorem C12_encode_roundtrip : forall (S : Type) (enc : list N -> S) (dec : S -> option (list N)),
-  (forall x, dec (enc x) = Some x) -> forall l, sl_decode S dec (sl_encode S enc l) = Ok l.
+(* Encoded form decodes to the identical list: the Base64 layer is modelled (standard alphabet, no padding) and proved to round-trip;
+   gzip is the one assumed codec (it has a left inverse and yields bytes) and is exercised by the correspondence run. *)
+Theorem C12_encode_roundtrip : forall (gz : list N -> list N) (gunzip : list N -> option (list N)),
+  (forall x, gunzip (gz x) = Some x) -> (forall x, Forall (fun b => b < 256) (gz x)) -> forall l, sl_decode gunzip (sl_encode gz l) = Ok l.
 Proof. exact encode_roundtrip. Qed.
+Theorem C12_decode_rejects_non_base64 : forall (gunzip : list N -> option (list N)) s, b64s_decode s = None -> sl_decode gunzip s = Err SlInvalidEncoding.
+Proof. exact decode_rejects. Qed.
 
 (* One-way revocation over every write history; suspension reversible. *)
 Theorem C12_revocation_monotone : forall ops c i,
@@ -103,6 +105,7 @@ Print Assumptions C12_never_panics.
 Print Assumptions C12_len_fixed.
 Print Assumptions C12_new_spec.
 Print Assumptions C12_encode_roundtrip.
+Print Assumptions C12_decode_rejects_non_base64.
 Print Assumptions C12_revocation_monotone.
 Print Assumptions C12_revocation_refused.
 Print Assumptions C12_suspension_clearable.
